@@ -180,8 +180,71 @@ def path_api(ctx, job, box):
     return checks
 
 
+def path_parser(ctx, job, box):
+    """End to end through the recogniser: [ESC ( | ESC )] code, [SO | SI], one printable ASCII character,
+    in 8-bit and in UTF-8 mode."""
+    from ..state import Session, Ev
+    prog, L = G['prog'], G['L']
+    eng = Engine(prog, ctx)
+    box['eng'] = eng
+    slot = job.params['slot']          # '(' or ')'
+    code = job.params['code']
+    shift = job.params['shift']        # 0x0e / 0x0f / None
+    ses = Session(eng, L, cols=3, lines=1)
+    utf8 = ctx.boolvar('utf8')
+    c = ctx.bvvar('c', 32)
+    ctx.assume(z3.And(z3.UGE(c, 0x20), z3.ULE(c, 0x7e)))
+    chars = [0x1b, ord(slot), ord(code)] + ([shift] if shift is not None else []) + [c]
+    steps = [['set_use_utf8', utf8], ['feed_cps', chars]]
+    outcome, msg = 'ok', None
+    try:
+        for st in steps:
+            ses.step(st)
+    except Panic as e:
+        outcome, msg = 'panic', str(e)
+    post = ses.screen
+
+    def jsteps(model):
+        ev = Ev(model)
+        return [['set_use_utf8', ev.bool(utf8)], ['feed_cps', [ev.int(x) for x in chars]]]
+
+    def scenario(model):
+        sc = {'cols': 3, 'lines': 1, 'steps': jsteps(model)}
+        if outcome == 'panic':
+            return sc, {'ok': False, 'panic': msg, 'out': []}
+        return sc, {'ok': True, 'out': [snapshot(eng, L, post, model)]}
+
+    def describe(model):
+        st = jsteps(model)
+        return {'utf8_mode': st[0][1], 'input': ''.join(chr(x) for x in st[1][1]).encode('unicode_escape').decode()}
+
+    if outcome == 'panic':
+        return Check(False, scenario, describe, outcome='panic', label='panic: %s' % msg)
+    rt = ref_tables()
+    g0 = rt[code] if (slot == '(' and code in rt) else rt['B']
+    g1 = rt[code] if (slot == ')' and code in rt) else rt['0']
+    active = g1 if shift == 0x0e else g0
+    c64 = z3.ZeroExt(32, c)
+    exp8 = z3.Select(z3_table(active), c64)
+    exp = z3.If(utf8, c, exp8)          # UTF-8 mode: designators and shifts are ignored
+    alts = cell_alts(L, post, 0, 0)
+    ok = True
+    for cond, cell in alts:
+        d = cell.f[L.char['data']]
+        same_char = (bv(Int('char', d.c[0])) == exp) if (type(d) is Str and len(d.c) == 1) else False
+        ok = bool_and(ok, bool_or(bool_not(cond), same_char))
+    return Check(ok, scenario, describe,
+                 label='ESC %s %s%s then a character: the drawn cell is not the documented translation '
+                       '(8-bit mode) / the character itself (UTF-8 mode)' % (slot, code, ' + SO' if shift == 0x0e else (' + SI' if shift else '')))
+
+
 def jobs(tier):
     js = [Job('table/' + n, path_table, tname=n, prop=PROP) for n in ('B', '0', 'U', 'V')]
+    for slot in '()':
+        for code in 'B0UVx':
+            for shift in (None, 0x0e, 0x0f):
+                js.append(Job('parser/%s%s/%s' % (slot, code, {None: 'noshift', 0x0e: 'SO', 0x0f: 'SI'}[shift]), path_parser,
+                              slot=slot, code=code, shift=shift, prop=PROP))
     js.append(Job('defaults', path_defaults, prop=PROP))
     js.append(Job('draw/low', path_draw, range='low', prop=PROP))
     js.append(Job('draw/high', path_draw, range='high', prop=PROP))
@@ -198,6 +261,7 @@ META = {
                   'draw', 'draw::{closure#0}', 'define_charset', 'shift_out', 'shift_in', 'Screen::new'],
     'bounds': 'all 4x256 table entries (symbolic index, one query per table); draw of one symbolic code point below 256 '
               'and one above 255 (all scalar values) with G0/G1 each any of the four tables and either active; SO/SI and '
-              'define_charset for codes B 0 U V K x and modes ( ) x from every charset state',
-    'outside': 'the recogniser path (designators/shifts in 8-bit vs UTF-8 mode) is checked in the parser families of C20/C03',
+              'define_charset for codes B 0 U V K x and modes ( ) x from every charset state; through the recogniser: ESC ( / ESC ) with '
+              'codes B 0 U V x, optional SO/SI, then a symbolic printable ASCII character, in 8-bit and UTF-8 mode',
+    'outside': 'code points the width tables class as non-printing after translation are not judged by the draw jobs',
 }
